@@ -619,6 +619,35 @@ def part_keys(fx, tmp):
                                     "[%s]: position %d is %s, the file alone gives %s" % (label, pos, json.dumps(keys[pos])[:160], json.dumps(alone[kinds[i][0]])[:160]))
                 C.nontrivial()
         shutil.rmtree(d, ignore_errors=True)
+    # oct keys whose octets look like text: trailing LF / CR / CRLF, embedded newlines, spaces, a trailing NUL
+    tails = [(b"\n", "LF"), (b"\r", "CR"), (b"\r\n", "CRLF"), (b"\n\n", "LFLF"), (b" ", "space"), (b"\x00", "NUL"), (b"\t", "TAB")]
+    for tail, nm in tails:
+        for body in (bytes(range(65, 65 + 40)), b"0123456789abcdef" * 3 + b"\n" + b"x" * 20):
+            if not C.case("key2jwk -> jwk2key round trip for an oct key of %d octets ending in %s" % (len(body) + len(tail), nm)):
+                continue
+            d = tempfile.mkdtemp(dir=tmp)
+            raw = body + tail
+            kf = os.path.join(d, "k.bin")
+            open(kf, "wb").write(raw)
+            out = os.path.join(d, "out.json")
+            rc, so, se = run([tool("key2jwk"), "-q", "-k", "-o", out, kf])
+            try:
+                jwk = json.load(open(out))["keys"][0]
+            except Exception as ex:
+                C.violation("key2jwk|fails", "oct ending in %s: exit %d %s" % (nm, rc, ex))
+                continue
+            if jwk.get("kty") != "oct" or b64d(jwk.get("k", "")) != raw:
+                C.violation("key2jwk|oct-differs", "oct ending in %s: k does not decode to the file content" % nm)
+            od = os.path.join(d, "o")
+            os.mkdir(od)
+            rc, so, se = run([tool("jwk2key"), "-d", od, out])
+            files = sorted(os.listdir(od))
+            C.obs(len(files))
+            if len(files) != 1 or open(os.path.join(od, files[0]), "rb").read() != raw:
+                C.violation("jwk2key|key-differs|oct-tail-%s" % nm, "oct key ending in %s: the key written back differs (%d files)" % (nm, len(files)))
+            else:
+                C.nontrivial()
+            shutil.rmtree(d, ignore_errors=True)
     # oct files of 32..512 bytes (below 32 bytes key2jwk does not guess HMAC)
     lens = range(32, 513) if C.tier == "thorough" else list(range(32, 72)) + [127, 128, 129, 255, 256, 257, 511, 512]
     for n in lens:
